@@ -706,7 +706,7 @@ func TestVerif_C40_RealParameters(t *testing.T) {
 		gsr := &tbtc.GroupSelectionResult{OperatorsIDs: ids, OperatorsAddresses: addrs}
 		// misbehaved: around the limit n - quorum
 		limit := n - gp.GroupQuorum
-		nm := []int{0, 1, limit - 1, limit, limit, limit + 1, rnd.Intn(limit + 1)}[rnd.Intn(7)]
+		nm := []int{0, 1, limit - 1, limit, limit, limit + 1, rnd.Intn(limit + 1)}[run%7]
 		if nm < 0 {
 			nm = 0
 		}
@@ -724,7 +724,7 @@ func TestVerif_C40_RealParameters(t *testing.T) {
 			}
 		}
 		// supporters: around the gate
-		ns := []int{gp.GroupQuorum - 1, gp.GroupQuorum, gp.GroupQuorum, gp.GroupQuorum + 1, len(operating), len(operating)}[rnd.Intn(6)]
+		ns := []int{gp.GroupQuorum - 1, gp.GroupQuorum, gp.GroupQuorum, gp.GroupQuorum + 1, len(operating), len(operating)}[(run/7+run)%6]
 		if ns > len(operating) {
 			ns = len(operating)
 		}
@@ -818,7 +818,7 @@ func TestVerif_C40_RealParameters(t *testing.T) {
 			reported = append(reported, group.MemberIndex(p+1))
 		}
 		active := perm[ni:]
-		ns := []int{gp.HonestThreshold - 1, gp.HonestThreshold, gp.HonestThreshold, gp.HonestThreshold + 1, len(active)}[rnd.Intn(5)]
+		ns := []int{gp.HonestThreshold - 1, gp.HonestThreshold, gp.HonestThreshold, gp.HonestThreshold + 1, len(active)}[run%5]
 		if ns > len(active) {
 			ns = len(active)
 		}
